@@ -3,12 +3,21 @@
    Names.v (variables), Encode.v (enforce_bb, solve as posting sequences of C07's SATManager
    model, with the border-test repair fixes/C08-border-tests.diff), Shapes.v (specification).
    All theorems are for every grid size and every number of boxes k >= 1; the SAT solver is a
-   function with a sound-and-complete contract (as in C07). *)
-From Coq Require Import ZArith List Bool String.
+   function with a sound-and-complete contract (as in C07).
+   Grids: the theorems are stated under the decidable hypothesis [full_grid inp]; C08_full_grid_general
+   proves it for EVERY rectangular grid of cells given by strictly increasing coordinate lists (cells
+   in any order, any occupancy values), and C08_shapes_exact_grid / C08_search_exact_grid restate
+   the two main theorems for grids given that way.
+   Modes: rect.solve has two branches - "Min area approach" (ratio < 1: --minarea, --sf d < 1) and
+   "Min error approach" (ratio >= 1: --minerr (2, default), --maxdiff (3), --sf d >= 1).  The property
+   quantifies over the cost bounds of the minimum-error mode: the search theorems are for every
+   ratio >= 1 (hypothesis ~ ratio < 1); the shape theorems (box / attach / shapes) do not depend on
+   the mode, the formula part they describe is posted identically in both branches. *)
+From Coq Require Import ZArith List Bool String Sorted Permutation.
 From FrameModel Require Import Num.QcTac PB.Expr PB.Cnf PB.Robdd PB.Codify PB.Sat
-  RectSearch.Coords RectSearch.Names RectSearch.Encode RectSearch.Shapes RectSearch.EncodeFacts
+  RectSearch.Coords RectSearch.Names RectSearch.Encode RectSearch.Registry RectSearch.Shapes RectSearch.EncodeFacts
   RectSearch.GridFacts RectSearch.BoxFacts RectSearch.AttachFacts RectSearch.ShapesFacts RectSearch.SearchFacts
-  RectSearch.BboxFacts RectSearch.Examples.
+  RectSearch.BboxFacts RectSearch.Examples RectSearch.GridGen RectSearch.GridIff RectSearch.GridTheorems RectSearch.SelectBox.
 Import ListNotations.
 Local Open Scope nat_scope.
 
@@ -109,3 +118,88 @@ Theorem C08_border_refuted : exists inp W H e,
   end /\ ~ shape 2 inp (cells_of e).
 Proof. exact border_refuted. Qed.
 Print Assumptions C08_border_refuted.
+
+(* every rectangular grid of cells satisfies the hypothesis [full_grid] of the theorems above: for ALL
+   strictly increasing column boundaries xs and row boundaries ys (uniform or not, any origin, integer
+   or fractional; at least one column and one row) and every list [inp] that contains exactly the cells
+   of the grid on xs, ys - in any order, with any occupancy values ([is_grid]: the geometry of [inp] is
+   a permutation of the geometry of [grid_cells xs ys]) - and definecoords recovers xs and ys *)
+Theorem C08_full_grid_general : forall xs ys inp,
+  StronglySorted Qclt xs -> StronglySorted Qclt ys -> 2 <= List.length xs -> 2 <= List.length ys ->
+  Permutation (map geom_of inp) (map geom_of (grid_cells xs ys)) ->
+  full_grid inp = true /\ xcoords (definecoords inp) = xs /\ ycoords (definecoords inp) = ys.
+Proof. exact full_grid_general. Qed.
+Print Assumptions C08_full_grid_general.
+
+(* ... and conversely: the hypothesis [full_grid] of the theorems is exactly "the input is a rectangular grid of cells" *)
+Theorem C08_full_grid_iff : forall inp, full_grid inp = true <->
+  exists xs ys, StronglySorted Qclt xs /\ StronglySorted Qclt ys /\ 2 <= List.length xs /\ 2 <= List.length ys /\
+                is_grid xs ys inp.
+Proof. exact full_grid_iff. Qed.
+Print Assumptions C08_full_grid_iff.
+
+(* (iii) for grids given by their coordinate lists *)
+Theorem C08_shapes_exact_grid : forall xs ys inp k (m0 : memory),
+  StronglySorted Qclt xs -> StronglySorted Qclt ys -> 2 <= List.length xs -> 2 <= List.length ys ->
+  is_grid xs ys inp -> 1 <= k -> mem_wf m0 ->
+  exists m s sts, run_posts m0 empty_mgr (shape_posts Repaired inp k) = Some (m, s, sts) /\
+    forall sigma,
+      (exists a, (forall i b, i < k -> b < List.length inp -> a (name (VCell i b)) = sigma i b) /\
+                 ext a (clauses s)) <-> shape k inp sigma.
+Proof. exact shapes_exact_grid. Qed.
+Print Assumptions C08_shapes_exact_grid.
+
+(* (iv) for grids given by their coordinate lists, with the shape as its list of index rectangles
+   (trunk first; [shape_rects]: inside the grid, non-empty, pairwise disjoint, every later one abutting
+   the first on one side within its extent) and the returned rectangles written with xs, ys:
+   solve answers "(0, 1), []" exactly when no k-box shape reaches the bound; otherwise it returns
+   cost + 1 and exactly the boxes (x0, y0, x1, y1) of a k-box shape whose cost reaches the bound *)
+Theorem C08_search_exact_grid : forall (sat_o : cnf -> option valuation),
+  (forall f e, sat_o f = Some e -> sat e f) -> (forall f, sat_o f = None -> forall e, ~ sat e f) ->
+  forall xs ys inp k factor ratio bound (m0 : memory),
+    StronglySorted Qclt xs -> StronglySorted Qclt ys -> 2 <= List.length xs -> 2 <= List.length ys ->
+    is_grid xs ys inp -> 1 <= k -> mem_wf m0 -> ~ (ratio < 1)%Qc ->
+    exists r, solve_with Repaired inp k factor ratio bound sat_o m0 = Some r /\
+      match r with
+      | Insat => forall Rs, List.length Rs = k ->
+                   shape_rects (List.length xs - 1) (List.length ys - 1) Rs = true ->
+                   (shape_cost inp factor ratio Rs < bound)%Z
+      | Found c1 rects =>
+          exists Rs, List.length Rs = k /\
+            shape_rects (List.length xs - 1) (List.length ys - 1) Rs = true /\
+            (bound <= shape_cost inp factor ratio Rs)%Z /\
+            c1 = (shape_cost inp factor ratio Rs + 1)%Z /\
+            rects = map (fun R => Some (box_of xs ys R)) Rs
+      end.
+Proof. exact search_exact_grid. Qed.
+Print Assumptions C08_search_exact_grid.
+
+(* the correspondence also compares the manager's variable table (the order in which solve and
+   enforce_bb register their variables = their DIMACS numbers); it does so on [encode_reg], the posting
+   sequence with the registrations interleaved.  Registration changes nothing else: the diagram store,
+   the clause list, the auxiliary counter and the codified set are those of [encode], about which the
+   theorems above speak; one is defined exactly when the other is *)
+Theorem C08_registration_irrelevant : forall mode inp k factor ratio bound (m0 : memory),
+  match encode_reg mode inp k factor ratio bound m0, encode mode inp k factor ratio bound m0 with
+  | Some (m, s), Some (m', s') => m = m' /\ clauses s = clauses s' /\ auxcount s = auxcount s' /\ codified s = codified s'
+  | None, None => True
+  | _, _ => False
+  end.
+Proof. exact encode_reg_encode. Qed.
+Print Assumptions C08_registration_irrelevant.
+
+(* rect_io.select_box (with the shared-border repair fixes/C08-select-box-shared-borders.diff): from the
+   allocation of a grid - the cells of the grid on xs, ys in any order, each stored as centre and size
+   [arect_of] with the ratios of its modules - whose lines are further apart than the snapping tolerance
+   (1e-9 x the largest coordinate magnitude), select_box returns exactly those cells with the selected
+   module's ratio (0 where it is absent), and they are a grid on xs, ys: the hypotheses of
+   C08_shapes_exact_grid / C08_search_exact_grid hold of what the search receives.  (Exact rationals: the
+   binary64 rounding of centre -/+ size / 2 that the repair absorbs is judged by the harness's direct
+   oracle on decimal coordinates.) *)
+Theorem C08_select_box_grid : forall xs ys sel (cms : list (cell * list (string * Qc))),
+  StronglySorted Qclt xs -> StronglySorted Qclt ys -> 2 <= List.length xs -> 2 <= List.length ys ->
+  is_grid xs ys (map fst cms) -> spaced (snap_tol xs) xs -> spaced (snap_tol ys) ys ->
+  select_box sel (map (fun cm => arect_of (fst cm) (snd cm)) cms) = map (cell_of sel) cms /\
+  is_grid xs ys (map (cell_of sel) cms).
+Proof. exact select_box_of_grid. Qed.
+Print Assumptions C08_select_box_grid.
